@@ -119,6 +119,9 @@ BitKinds == {"BitVec", "BitSet", "BitVec08", "BitSet08"}
 (* ------------------------------------------------------------------ *)
 (* Library types: wire-equivalent descriptor                          *)
 (* ------------------------------------------------------------------ *)
+RECURSIVE RecTreeT(_), RecListT(_)
+RecTreeT(d) == Struct("Rust", <<P("u8"), Vec("Vec", IF d = 0 THEN P("unit") ELSE RecTreeT(d - 1))>>)
+RecListT(d) == Struct("Rust", <<P("u16"), Opt(IF d = 0 THEN P("unit") ELSE Bx("Box", RecListT(d - 1)))>>)
 LibEquiv(name) ==
     CASE name \in {"ArcStr", "PathBuf", "ArrayString"} -> Str
       [] name = "IpAddr"     -> Enum("", <<Var(0, <<P("u32")>>), Var(0, <<P("u128")>>)>>)
@@ -136,6 +139,10 @@ LibEquiv(name) ==
       [] name = "AtomicU64" -> P("u64")  [] name = "AtomicI64" -> P("i64")
       [] name = "AtomicUsize" -> P("usize") [] name = "AtomicIsize" -> P("isize")
       [] name = "PhantomData" -> P("unit")
+      \* recursive definitions (harness: vcommon::RecTree { v: u8, kids: Vec<RecTree> }, RecList { v: u16, next: Option<Box<RecList>> }):
+      \* the finite unfolding that holds every value of the table in WireVals (the innermost container is always empty)
+      [] name = "RecTree" -> RecTreeT(2)
+      [] name = "RecList" -> RecListT(3)
 
 (* ------------------------------------------------------------------ *)
 (* Default value of a type (Default::default()), used for added       *)
